@@ -66,6 +66,7 @@ private:
 	std::map<int, LP> lps; bool stop = false;
 	std::map<std::string, FileInfo> files;   // what the harness knows about each SimDisk path
 	std::vector<std::string> prob_paths;      // problem files in write order
+	std::string last_cli_basis, last_cli_basis_for;
 	std::string io_path(const Op *o, const char *fmt_ext);
 	void arm_file_faults(const std::string &path);
 	bool roundtrip_precondition(const LP &m);
